@@ -532,3 +532,18 @@ Proof.
   unfold answer_ok. destruct o as [i j|i j|i j|i pts|i]; simpl in E; try exact I;
     destruct (nth_error st i), (nth_error st j); inversion E; reflexivity.
 Qed.
+
+(** * Flat data pushed by the source: element n of the flat array is the element whose data index
+    flattens to n in the grid's order (C14_index_coord: located at data_points[n]) *)
+Theorem link_flat {A : Type} (d0 : A) g h (vals : list A) :
+  wf_axes g -> wf_axes h -> 1 <= gdim g -> compatible g h = true ->
+  exists out,
+    link_deliver g h (flat_arr d0 g vals) = LOk out /\
+    a_shape out = 1 :: data_shape h /\
+    forall c, inb (canon_shape h) c ->
+      a_get out (0 :: layout_idx h c) = nth (flat (g_c g) (data_shape g) (layout_idx g c)) vals d0.
+Proof.
+  intros Wg Wh Hn Hc.
+  destruct (link_transform g h (flat_arr d0 g vals) 1 Wg Wh Hn Hc eq_refl) as [out [H1 [H2 [_ [H4 _]]]]].
+  exists out. split; [exact H1|]. split; [exact H2|]. intros c Hin. rewrite (H4 0 c Hin). reflexivity.
+Qed.
